@@ -492,3 +492,82 @@ def shrink(decls, cons, fails, budget=250):
             if progress:
                 break
     return cons
+
+
+# ----------------------------------------------------------------- meaning of a cspuz tree
+
+def teval(e, env):
+    """ordinary meaning of a cspuz expression object (as built by the library) under env
+    (list indexed by variable id)."""
+    from cspuz.expr import BoolVar, IntVar, Op
+    if isinstance(e, (bool, int)):
+        return e
+    if isinstance(e, (BoolVar, IntVar)):
+        return env[e.id]
+    vs = [teval(x, env) for x in e.operands]
+    o = e.op
+    if o in (Op.BOOL_CONSTANT, Op.INT_CONSTANT):
+        return vs[0]
+    if o == Op.NEG:
+        return -vs[0]
+    if o == Op.ADD:
+        return sum(vs)
+    if o == Op.SUB:
+        return vs[0] - sum(vs[1:])
+    if o == Op.EQ:
+        return vs[0] == vs[1]
+    if o == Op.NE:
+        return vs[0] != vs[1]
+    if o == Op.LE:
+        return vs[0] <= vs[1]
+    if o == Op.LT:
+        return vs[0] < vs[1]
+    if o == Op.GE:
+        return vs[0] >= vs[1]
+    if o == Op.GT:
+        return vs[0] > vs[1]
+    if o == Op.NOT:
+        return not vs[0]
+    if o == Op.AND:
+        return all(vs)
+    if o == Op.OR:
+        return any(vs)
+    if o == Op.IFF:
+        return bool(vs[0]) == bool(vs[1])
+    if o == Op.XOR:
+        return bool(vs[0]) != bool(vs[1])
+    if o == Op.IMP:
+        return (not vs[0]) or bool(vs[1])
+    if o == Op.IF:
+        return vs[1] if vs[0] else vs[2]
+    if o == Op.ALLDIFF:
+        return len(set(vs)) == len(vs)
+    raise ValueError("teval: %r" % (o,))
+
+
+def facts(ms, keys):
+    """what solve() must leave in the sol field of every answer key, given all models."""
+    if not ms:
+        return None
+    out = []
+    for i, k in enumerate(keys):
+        if not k:
+            out.append(None)
+        else:
+            vals = set(m[i] for m in ms)
+            out.append(ms[0][i] if len(vals) == 1 else None)
+    return out
+
+
+def val_tok(v):
+    if v is None:
+        return "_"
+    if v is True:
+        return "T"
+    if v is False:
+        return "F"
+    return str(int(v))
+
+
+def vals_tok(vs):
+    return "[" + "".join(" " + val_tok(v) for v in vs) + " ]"
